@@ -261,7 +261,7 @@ def run(ctx):
         proof["ok"] = False
         proof["log"] = "translator failed: " + log
     ctx.say("proof stage: ok=%s theorems=%d audit=%d table-regenerated=%s changed=%s (%.1fs)" % (proof["ok"], len(proof["theorems"]), len(proof["audit"]), ok, changed, proof.get("wall_s", 0)))
-    n = ctx.scale(2500, 60000)
+    n = ctx.scale(2500, 25000)
     cases = [gen_case(ctx.rng) for _ in range(n)]
     cov = core.differential(ctx, "c06", proof, cases, sim_line, oracle, norm_impl=norm_impl, norm_model=norm_model, model_line_of=model_line,
                             shrink_candidates=shrink_candidates, nontrivial=lambda c: len(c["faults"]) >= 1,
